@@ -58,6 +58,39 @@ def kept_when(t):
     return None
 
 
+def proofs_length_fact(ck, prog, build_body, targets_term, n_term, field, ctor_rx):
+    """Is `targets.<field>` (the vector of child proof targets) known to hold exactly `n` entries inside the constraint builder?
+    Established across functions: add_recursive_verifiers returns one entry per iteration of 0..num_proofs; the only caller of the
+    builder function (the circuit constructor) stores that vector in the targets it passes, and passes the same count.  When it
+    holds the length is registered (lc.TERM_LEN), so a loop written `targets.proofs.iter().zip(&flags)` ranges over 0..n like the
+    index loop it replaces.  Returns (ok, detail)."""
+    try:
+        rec = prog.one(r"common::recursive::add_recursive_verifiers$", AGG)
+        ctor = prog.one(ctor_rx, AGG)
+    except Exception as ex:
+        return False, "anchor: %s" % ex
+    ev = T.Evaluator(prog)
+    rf = ev.frame(rec)
+    rvec = P.ok_value(rf.return_term())
+    pv = circ.per_iteration_value(rf, rf.effects(), rvec)
+    r_ = circ.range_expr(pv[1]) if pv is not None else None
+    ok1 = r_ is not None and P.const_of(r_[0]) == 0 and P.norm(r_[1]) == ("param", rec.path, 4, rec.local_name(4))
+    callers = prog.callers().get(build_body.id, [])
+    ok2 = len(callers) == 1 and callers[0][0].id == ctor.id
+    cf = ev.frame(ctor)
+    effs = cf.effects()
+    er = [e for e in effs if e.frame is cf and e.name.endswith("recursive::add_recursive_verifiers")]
+    eb = [e for e in effs if e.frame is cf and (e.path or "") == build_body.path]
+    ok3 = False
+    if len(er) == 1 and len(eb) == 1 and len(er[0].args) == 4 and len(eb[0].args) >= 3:
+        tg = P.norm(eb[0].args[1])
+        fld = dict(tg[3]).get(field) if (isinstance(tg, tuple) and tg and tg[0] == "adt") else None
+        ok3 = fld is not None and P.ok_value(fld) == P.ok_value(er[0].result) and P.norm(eb[0].args[2]) == P.norm(er[0].args[3])
+    if ok1 and ok2 and ok3:
+        lc.TERM_LEN[("fld", targets_term, field)] = n_term
+    return (ok1 and ok2 and ok3), {"one entry per 0..num_proofs": ok1, "single caller (constructor)": ok2, "same vector and same count passed": ok3}
+
+
 class PBView:
     def __init__(self, ck, prog=None):
         prog = prog or ck.prog
@@ -76,6 +109,9 @@ class PBView:
         self.proofs = ("fld", self.targets, "leaf_proofs")
         self._nests = {}
         self._filled = {}
+        # lengths: targets.leaf_proofs has n_leaf entries (constructor fact); vectors filled one entry per slot have the loop's length
+        self.len_fact = proofs_length_fact(ck, prog, self.body, self.targets, self.n, "leaf_proofs", r"private_batch::circuit::circuit_logic::PrivateBatchCircuit::new$")
+        lc.register_filled(self.effects)
 
     # ---- canonical terms ---------------------------------------------------------------
     def nest(self, e):
